@@ -11,4 +11,5 @@ let all : (string * (Model.event list -> bool)) list = [
   ("C09", Model.chk_C09);
   ("C10", Model.chk_C10);
   ("C05", Model.chk_C05);
+  ("C16", Model.chk_C16);
 ]
